@@ -307,10 +307,117 @@ func ruleInput(c *Ctx) {
 				if be, ok := m.(*ast.BinaryExpr); ok && (be.Op == token.EQL || be.Op == token.NEQ) && (isIdent(be.Y, k.sentinel) || isIdent(be.X, k.sentinel)) {
 					found = true
 				}
+				// `switch err { case errNext: ... }`
+				if cc, ok := m.(*ast.CaseClause); ok {
+					for _, e := range cc.List {
+						if isIdent(e, k.sentinel) {
+							found = true
+						}
+					}
+				}
 				return true
 			})
 		}
 		c.check(found, "sentinel:"+k.sentinel, token.NoPos, k.sentinel+" is compared in its catcher "+k.fn, k.sentinel+" is never compared in "+k.fn+": the control-flow sentinel would escape to the caller as an error")
+	}
+	// every piece of program code the main loop runs - patterns as well as bodies - can end in next or nextfile (through
+	// a function it calls): the error of each execute call in the main loop's function reaches a comparison with both
+	// sentinels (directly, or in a helper or closure it is handed to) before it can be returned
+	if ea := c.ssaFunc("interp", "interp.execActions"); ea != nil {
+		comparesWith := func(v ssa.Value, sentinel string, depth int) bool { return false }
+		var cmp func(v ssa.Value, sentinel string, depth int) bool
+		cmp = func(v ssa.Value, sentinel string, depth int) bool {
+			if depth > 3 || v.Referrers() == nil {
+				return false
+			}
+			for _, r := range *v.Referrers() {
+				switch x := r.(type) {
+				case *ssa.BinOp:
+					for _, side := range []ssa.Value{x.X, x.Y} {
+						if ld, ok := side.(*ssa.UnOp); ok && ld.Op == token.MUL {
+							if g, ok := ld.X.(*ssa.Global); ok && g.Name() == sentinel {
+								return true
+							}
+						}
+					}
+				case *ssa.Phi:
+					if cmp(x, sentinel, depth+1) {
+						return true
+					}
+				case *ssa.Call:
+					// handed to a helper or closure: the parameter it becomes
+					var callee *ssa.Function
+					if f := x.Call.StaticCallee(); f != nil {
+						callee = f
+					} else if ld, ok := x.Call.Value.(*ssa.UnOp); ok {
+						// a closure kept in a local variable
+						if al, ok := ld.X.(*ssa.Alloc); ok && al.Referrers() != nil {
+							for _, ar := range *al.Referrers() {
+								if st, ok := ar.(*ssa.Store); ok {
+									if mc, ok := st.Val.(*ssa.MakeClosure); ok {
+										callee, _ = mc.Fn.(*ssa.Function)
+									}
+								}
+							}
+						}
+					} else if mc, ok := x.Call.Value.(*ssa.MakeClosure); ok {
+						callee, _ = mc.Fn.(*ssa.Function)
+					}
+					if callee != nil {
+						for i, a := range x.Call.Args {
+							if a == v && i < len(callee.Params) && cmp(callee.Params[i], sentinel, depth+1) {
+								return true
+							}
+						}
+					}
+				}
+			}
+			return false
+		}
+		_ = comparesWith
+		k := 0
+		// the main loop's function and the helpers only it reaches
+		loopFns := []*ssa.Function{ea}
+		if reg := c.exclusiveRegion("interp", ea); reg != nil {
+			for g := range reg {
+				if g != ea && g.Name() != "execute" {
+					loopFns = append(loopFns, g)
+				}
+			}
+			sort.Slice(loopFns[1:], func(i, j int) bool { return loopFns[1+i].Name() < loopFns[1+j].Name() })
+		}
+		for _, lf := range loopFns {
+		allInstrs(lf, func(in ssa.Instruction) {
+			call, ok := in.(*ssa.Call)
+			if !ok {
+				return
+			}
+			if cal := call.Call.StaticCallee(); cal == nil || cal.Name() != "execute" {
+				return
+			}
+			// a helper that hands the error on to the main loop: followed through its result
+			if lf != ea {
+				forwarded := false
+				if call.Referrers() != nil {
+					for _, r := range *call.Referrers() {
+						if _, isRet := r.(*ssa.Return); isRet {
+							forwarded = true
+						}
+					}
+				}
+				if forwarded {
+					return
+				}
+			}
+			k++
+			for _, sentinel := range []string{"errNext", "errNextfile"} {
+				key := fmt.Sprintf("sentinel:%s:execute#%d", sentinel, k)
+				c.check(cmp(call, sentinel, 0), key, call.Pos(), "the error of this execute call is compared with "+sentinel+" before it can be returned",
+					"the main loop returns the error of an execute call (a pattern, or one half of a range pattern) without comparing it with "+sentinel+": `next`/`nextfile` executed by a function that the pattern calls ends the run with the error \""+strings.TrimPrefix(strings.ToLower(sentinel), "err")+"\" instead of abandoning the record")
+			}
+		})
+		}
+		c.atLeast("execute calls in the main loop", k, 1)
 	}
 	// returnValue is recognised where a function body is run: the error result of the nested execute of a Function's
 	// Body (in execute's call handler or in a helper of it) reaches a type test for the return-value sentinel
